@@ -12,6 +12,7 @@ import (
 	"net"
 	"strings"
 	"sync"
+	"sync/atomic"
 	"testing/synctest"
 	"time"
 
@@ -67,12 +68,20 @@ type world struct {
 	lmu          sync.Mutex
 	libConns     []*netsim.Conn
 	libListeners []*recListener
+	lateAccept   atomic.Bool // see recListener.Accept
 }
 
 // recListener records the connections the library accepts.
 type recListener struct {
 	*netsim.Listener
-	w *world
+	w      *world
+	closed chan struct{}
+	once   sync.Once
+}
+
+func (l *recListener) Close() error {
+	l.once.Do(func() { close(l.closed) })
+	return l.Listener.Close()
 }
 
 func (l *recListener) Accept() (net.Conn, error) {
@@ -83,6 +92,12 @@ func (l *recListener) Accept() (net.Conn, error) {
 	l.w.lmu.Lock()
 	l.w.libConns = append(l.w.libConns, c.(*netsim.Conn))
 	l.w.lmu.Unlock()
+	if l.w.lateAccept.Load() {
+		// the accepting goroutine is "descheduled" between the kernel handing it the connection and
+		// its return from Accept: it resumes only once the listener has been closed (a legal schedule
+		// on a real network; see TestC09LateAccept)
+		<-l.closed
+	}
 	return c, nil
 }
 
@@ -130,7 +145,7 @@ func newWorld(o worldOpt) (*world, error) {
 			if err != nil {
 				return nil, err
 			}
-			rl := &recListener{Listener: l, w: w}
+			rl := &recListener{Listener: l, w: w, closed: make(chan struct{})}
 			w.lmu.Lock()
 			w.libListeners = append(w.libListeners, rl)
 			w.lmu.Unlock()
